@@ -523,44 +523,60 @@ def run_words(task):
                     if res["sample"] is None:
                         res["sample"] = {"class": short(key), "kwargs": repr(kw), "t": e["t"], "N": N, "order": otag, "container": cont,
                                          "points": np.asarray(P).tolist(), "names": list(names)}
-            # ---- integer-typed positions (1-D, non-grid classes): a list of Python ints and an integer ndarray holding the whole
-            # numbers that lie inside the span of this word's points are positions like any other -- same records as the float
-            # request with the same values ('list, tuple and array inputs are equivalent'; an output allocated with
-            # empty_like(request) or an integer power of the request shows here)
-            if d == 1 and not e["grid"] and e["mesh"] is None and N == max(task["Ns"]) and base_pts is not None:
-                lo_, hi_ = float(np.min(base_pts)), float(np.max(base_pts))
-                whole = [i for i in range(int(math.ceil(lo_)), int(math.floor(hi_)) + 1)][:3]
-                if whole:
-                    import contextlib
-                    import io
-                    s, ex = (shared, None) if (reuse and shared is not None) else _try_new(e, kw)
-                    ref = None
-                    if ex is None:
-                        try:
-                            with contextlib.redirect_stdout(io.StringIO()):
-                                ref = s(np.array(whole, dtype=float), e["t"])
-                        except Exception:
-                            ref = None
-                    for cont, xi in (("int-list", [int(i) for i in whole]), ("int-ndarray", np.array(whole, dtype=np.int64))) if ref is not None else ():
-                        res["states"] += 1
-                        res["transitions"] += 1
-                        res["evals"] += 1
-                        try:
-                            with contextlib.redirect_stdout(io.StringIO()):
-                                sol = s(xi, e["t"])
-                        except Exception as ex2:
-                            cx.dg.add("intexc", cont, type(ex2).__name__)
-                            cx.viol("call:raises:" + type(ex2).__name__, {"container": cont}, detail={"message": str(ex2)[:200], "points": whole})
-                            continue
-                        digest_sol(cx.dg, sol)
-                        if len(sol) != len(whole) or tuple(sol.dtype.names or ()) != tuple(ref.dtype.names or ()):
-                            cx.viol("containers:equivalent", {"container": cont}, value=1.0, tol=TOL_SAME, detail={"field": "len/names", "points": whole})
-                            continue
-                        m, fn = same_fields(sol, ref)
-                        if m > TOL_SAME:
-                            cx.viol("containers:equivalent", {"container": cont}, value=m, tol=TOL_SAME, detail={"field": fn, "points": whole})
-                        else:
-                            res["nontrivial"].append("%s|%s|%d|int|%s" % (short(key), sorted(cfgd.items()), len(whole), cont))
+            # ---- integer-typed positions (non-grid classes): whole-number positions given as Python ints in a list and as an integer
+            # ndarray are positions like any other -- same records as the float request with the same values ('list, tuple and array
+            # inputs are equivalent'; an output allocated with empty_like / zeros_like / full_like(request), or an integer power of
+            # the request, shows here).  Candidates: the whole numbers inside the span of this word's points, else {1, 2, 3} (d = 1) or
+            # a small integer stencil (d >= 2); a candidate set is used only if the FLOAT request with the same values evaluates to
+            # finite numbers, so no knowledge of the domain is assumed.
+            if not e["grid"] and e["mesh"] is None and N == max(task["Ns"]) and base_pts is not None:
+                import contextlib
+                import io
+                cands = []
+                if d == 1:
+                    lo_, hi_ = float(np.min(base_pts)), float(np.max(base_pts))
+                    whole = [i for i in range(int(math.ceil(lo_)), int(math.floor(hi_)) + 1)][:3]
+                    cands = ([np.array(whole, dtype=np.int64)] if whole else []) + [np.array([1, 2, 3], dtype=np.int64)]
+                else:
+                    stencil = [[1, 0, 1], [1, 1, -1], [2, -1, 1], [3, 2, 2]]
+                    cands = [np.array([row[:d] for row in stencil], dtype=np.int64), np.array([[4, 1, 1][:d], [5, 2, -2][:d], [6, -3, 1][:d]], dtype=np.int64)]
+                s, ex = (shared, None) if (reuse and shared is not None) else _try_new(e, kw)
+                ref, Pint = None, None
+                for cnd in cands if ex is None else ():
+                    try:
+                        with contextlib.redirect_stdout(io.StringIO()):
+                            r_ = s(cat.native(e, cnd.astype(float)), e["t"])
+                        ok_ = len(r_) == len(cnd) and all(np.all(np.isfinite(np.asarray(r_[n], float))) for n in r_.dtype.names
+                                                          if np.asarray(r_[n]).dtype.kind in "fiu")
+                    except Exception:
+                        ok_ = False
+                    if ok_:
+                        ref, Pint = r_, cnd
+                        break
+                words = ()
+                if ref is not None:
+                    nat = cat.native(e, Pint)
+                    words = (("int-list", nat.tolist()), ("int-ndarray", np.ascontiguousarray(nat)))
+                for cont, xi in words:
+                    res["states"] += 1
+                    res["transitions"] += 1
+                    res["evals"] += 1
+                    try:
+                        with contextlib.redirect_stdout(io.StringIO()):
+                            sol = s(xi, e["t"])
+                    except Exception as ex2:
+                        cx.dg.add("intexc", cont, type(ex2).__name__)
+                        cx.viol("call:raises:" + type(ex2).__name__, {"container": cont}, detail={"message": str(ex2)[:200], "points": Pint.tolist()})
+                        continue
+                    digest_sol(cx.dg, sol)
+                    if len(sol) != len(Pint) or tuple(sol.dtype.names or ()) != tuple(ref.dtype.names or ()):
+                        cx.viol("containers:equivalent", {"container": cont}, value=1.0, tol=TOL_SAME, detail={"field": "len/names", "points": Pint.tolist()})
+                        continue
+                    m, fn = same_fields(sol, ref)
+                    if m > TOL_SAME:
+                        cx.viol("containers:equivalent", {"container": cont}, value=m, tol=TOL_SAME, detail={"field": fn, "points": Pint.tolist()})
+                    else:
+                        res["nontrivial"].append("%s|%s|%d|int|%s" % (short(key), sorted(cfgd.items()), len(Pint), cont))
             # ---- contract layout for classes that index a (d, N) layout: one extra word in the documented (N, d) shape
             if e["layout"] == "dN" and N == 3:
                 res["states"] += 1
